@@ -402,7 +402,75 @@ T_SIZES = [{'sizes': s} for s in
             [2, 1, 2], [1, 2, 3, 4], [2, 2, 3, 4], [2, 3, 3, 4],
             [2, 3, 4, 5], [2, 2, 3, 6], [2, 3, 4, 6])]
 
+def h_release_tables(ctx, case):
+    """get_tree_above_leaves (the data-release route): the parent ->
+    children table holds exactly the (parent, child) pairs named by the
+    rows of cluster_annotation_term.csv - a row repeated verbatim changes
+    nothing, a row giving a term a second parent shows up (so that the
+    validator can refuse the tree)"""
+    import os
+    import cell_type_mapper.taxonomy.data_release_utils as DR
+    from harness.common import level_names, symbolic_parents, sandbox_root
+    sizes = case['sizes']
+    levels, names = level_names(sizes)
+    parents = symbolic_parents(ctx, sizes, onto=False)
+    rows = []
+    for li in range(1, len(levels)):
+        for i, n in enumerate(names[li]):
+            rows.append((n, levels[li], names[li - 1][parents[li][i]],
+                         levels[li - 1]))
+    extra = ['none', 'repeat', 'second_parent'][ctx.choice('extra_row', 3)]
+    if extra != 'none':
+        k = ctx.choice('which_row', len(rows))
+        n, lv, p, plv = rows[k]
+        if extra == 'second_parent':
+            li = levels.index(lv)
+            others = [x for x in names[li - 1] if x != p]
+            if not others:
+                raise core.PathAbort('no second parent available')
+            p = others[ctx.choice('other_parent', len(others))]
+        where = ctx.choice('insert_at', len(rows) + 1)
+        rows.insert(where, (n, lv, p, plv))
+    want = {}
+    for n, lv, p, plv in rows:
+        want.setdefault(plv, {}).setdefault(p, set()).add(n)
+    want = {a: {b: sorted(c) for b, c in d.items()} for a, d in want.items()}
+    d = os.path.join(sandbox_root(), 'release')
+    os.makedirs(d, exist_ok=True)
+    path = os.path.join(d, 'cluster_annotation_term.csv')
+    with open(path, 'w') as f:
+        f.write('label,name,cluster_annotation_term_set_label,'
+                'parent_term_label,parent_term_set_label\n')
+        # a row of the top level (no parent) as in real releases
+        f.write(f"{names[0][0]},x,{levels[0]},,\n")
+        for n, lv, p, plv in rows:
+            f.write(f"{n},x,{lv},{p},{plv}\n")
+    try:
+        got = DR.get_tree_above_leaves(csv_path=path, hierarchy=levels)
+    except Exception as e:
+        ctx.exception(e)
+        return 'EXC ' + type(e).__name__
+    ctx.reach('read')
+    ctx.check({a: {b: sorted(c) for b, c in dd.items()}
+               for a, dd in got.items()} == want,
+              f'parent -> children table == the rows of the file '
+              f'(extra row: {extra})')
+    return extra
+
+
 HARNESSES = [
+    Harness('tree_from_release_tables', h_release_tables,
+            cases=[{'sizes': [2, 3]}, {'sizes': [2, 2, 3]}],
+            thorough_cases=[{'sizes': [2, 3, 4]}],
+            funcs=['data_release_utils.get_tree_above_leaves',
+                   'get_header_map'],
+            bounds='2-3 levels, every child->parent map; optionally one '
+                   'row repeated verbatim or one row naming a second '
+                   'parent, inserted anywhere',
+            outside='the other two release tables (cell metadata, '
+                    'membership) and TaxonomyTree.from_data_release as a '
+                    'whole',
+            expect_reach=['read']),
     Harness('validator_vs_strict_tree', h_validate,
             cases=Q_SIZES + [{'sizes': [2, 3], 'empty_leaves': True},
                              {'sizes': [2, 2], 'alias': True}],
